@@ -267,7 +267,33 @@ func ZZ_C19_toString_toRune_slices() {
 	toFloatSlice := zzBuiltin("toFloatSlice").(func([]interface{}) []float64)
 	toStringSlice := zzBuiltin("toStringSlice").(func([]interface{}) []string)
 	toBoolSlice := zzBuiltin("toBoolSlice").(func([]interface{}) []bool)
-	switch zz.Choose(7) {
+	switch zz.Choose(8) {
+	case 7:
+		// a conversion's result is a value of its own (Go's string(b), []byte(s),
+		// []rune(s) copy): a later store into the argument does not show in a
+		// result obtained earlier, nor a store into the result in the argument
+		b0, b1, w := zz.Byte(), zz.Byte(), zz.Byte()
+		zz.Assume(zz.And(zz.And(b0 < 0x80, b1 < 0x80), zz.And(w < 0x80, w != b0)))
+		buf := []byte{b0, b1}
+		str := toString(buf)
+		buf[0] = w
+		zz.Assert(len(str) == 2 && str[0] == b0 && str[1] == b1, "C19.toString/result-independent-of-later-store-into-the-bytes")
+		buf = buf[:1]
+		zz.Assert(len(str) == 2, "C19.toString/result-independent-of-later-store-into-the-bytes")
+		src := string([]byte{b0, b1})
+		bs := toByteSlice(src)
+		bs[0] = w
+		zz.Assert(src[0] == b0, "C19.toByteSlice/store-into-result-leaves-the-string")
+		bs2 := toByteSlice(src)
+		zz.Assert(bs2[0] == b0, "C19.toByteSlice/results-do-not-share-storage")
+		rs := toRuneSlice(src)
+		rs[0] = rune(w)
+		rs2 := toRuneSlice(src)
+		zz.Assert(rs2[0] == rune(b0) && src[0] == b0, "C19.toRuneSlice/results-do-not-share-storage")
+		in := []interface{}{int64(b0), int64(b1)}
+		is := toIntSlice(in)
+		in[0] = int64(w)
+		zz.Assert(is[0] == int64(b0), "C19.toIntSlice/result-independent-of-later-store-into-the-argument")
 	case 0:
 		vals := []interface{}{int64(1), int64(-9223372036854775808), 1.5, 1e21, true, "s", nil, []byte("ab"), float32(0.1)}
 		texts := []string{"1", "-9223372036854775808", "1.5", "1e+21", "true", "s", "<nil>", "ab", "0.1"}
